@@ -915,14 +915,22 @@ class Models:
                             excs.append(r)
                             continue
                         v = r.val
-                        if isinstance(v, PKwargs) and v.rest is None:
+                        if isinstance(v, PKwargs) and v.rest is None and not isinstance(items, list):
                             d2 = dict(items)
                             d2.update(v.items)
                             nxt.append((r.st, d2))
                         else:
-                            raise Unsupported("dict unpacking of symbolic mapping")
+                            # symbolic mapping: keep the parts, merge below
+                            parts = items if isinstance(items, list) else ([PKwargs(items)] if items else [])
+                            nxt.append((r.st, parts + [v]))
                 accs = nxt
-            return [Res("ok", s, PKwargs(items)) for s, items in accs] + excs
+            out = list(excs)
+            for s, items in accs:
+                if isinstance(items, list):
+                    out.extend(self.dict_merge(eng, s, items, fx))
+                else:
+                    out.append(Res("ok", s, PKwargs(items)))
+            return out
         if any(k is None for k in e.keys):
             raise Unsupported("mixed dict literal")
         acc, excs = eng.ev_list([x for kv in zip(e.keys, e.values) for x in kv], st, fx)
@@ -932,6 +940,43 @@ class Models:
             for i in range(0, len(vals), 2):
                 self.dict_put(eng, s, a_of(d), eng.to_val(s, vals[i]), eng.to_val(s, vals[i + 1]))
             out.append(Res("ok", s, d))
+        return out
+
+    def dict_merge(self, eng, st, parts, fx):
+        """{**p0, **p1, ...} over symbolic dicts: a new dict whose content is the right-biased union"""
+        vals = [eng.to_val(st, p) for p in parts]
+        DICT = CLS.cid("dict")
+        alld = z3.And(*[z3.And(is_ref(v), subcls(st.get("cls_of", a_of(v)), DICT)) for v in vals])
+        out = []
+        for s2, ok in eng.split(st, alld, note="** operands are dicts"):
+            if not ok:
+                out.append(eng.exc(s2, "TypeError", note="** of a non-mapping"))
+                continue
+            s2 = s2.fork()
+            d = eng.alloc_dict(s2)
+            a = a_of(d)
+            h, v, dk, n = fresh("mh", ArrVB), fresh("mv", ArrVV), fresh("mk", ArrVV), fresh("mn", I)
+            k = z3.Const("k!dm", Val)
+            hs = [s2.get("dhas", a_of(x)) for x in vals]
+            vs = [s2.get("dval", a_of(x)) for x in vals]
+            ks = [s2.get("dkey", a_of(x)) for x in vals]
+            val = z3.Select(vs[0], k)
+            key = z3.Select(ks[-1], k)
+            for i in range(1, len(vals)):
+                val = z3.If(z3.Select(hs[i], k), z3.Select(vs[i], k), val)
+            for i in range(len(vals) - 2, -1, -1):
+                key = z3.If(z3.Select(hs[i], k), z3.Select(ks[i], k), key)
+            anyh = z3.Or(*[z3.Select(x, k) for x in hs])
+            s2.assume(z3.ForAll([k], z3.And(z3.Select(h, k) == anyh,
+                                            z3.Select(v, k) == z3.If(anyh, val, ABSENT),
+                                            z3.Select(dk, k) == z3.If(anyh, key, ABSENT))))
+            s2.assume(n >= 0, *[n >= s2.get("dsize", a_of(x)) for x in vals])
+            s2.assume(z3.ForAll([k], z3.Implies(z3.Select(h, k), n > 0), patterns=[z3.Select(h, k)]))
+            s2.put("dhas", a, h)
+            s2.put("dval", a, v)
+            s2.put("dkey", a, dk)
+            s2.put("dsize", a, n)
+            out.append(Res("ok", s2, d))
         return out
 
     def set_literal(self, eng, e, st, fx):
@@ -988,7 +1033,71 @@ class Models:
         return p.n, (lambda j: z3.Select(arr, j))
 
     def comprehension(self, eng, e, st, fx, kind):
+        if kind == "dict":
+            r = self.dict_filter_comprehension(eng, e, st, fx)
+            if r is not None:
+                return r
         raise Unsupported("comprehension (%s) line %d" % (kind, e.lineno))
+
+    def dict_filter_comprehension(self, eng, e, st, fx):
+        """{k: v for k, v in <dict>.items() if <pure condition>}: a new dict holding the entries that pass"""
+        if len(e.generators) != 1:
+            return None
+        g = e.generators[0]
+        t = g.target
+        if not (isinstance(t, ast.Tuple) and len(t.elts) == 2 and all(isinstance(x, ast.Name) for x in t.elts)):
+            return None
+        kn_, vn_ = t.elts[0].id, t.elts[1].id
+        if not (isinstance(e.key, ast.Name) and e.key.id == kn_ and isinstance(e.value, ast.Name) and e.value.id == vn_):
+            return None
+        it = g.iter
+        if not (isinstance(it, ast.Call) and isinstance(it.func, ast.Attribute) and it.func.attr == "items" and not it.args):
+            return None
+        out = []
+        for r in eng.ev(it.func.value, st, fx):
+            if r.kind != "ok":
+                out.append(r)
+                continue
+            src = r.val
+            if not is_val(src):
+                return None
+            DICT = CLS.cid("dict")
+            for s2, ok in eng.split(r.st, z3.And(is_ref(src), subcls(r.st.get("cls_of", a_of(src)), DICT)), note="comprehension source is a dict"):
+                if not ok:
+                    raise Unsupported("dict comprehension over a non-dict")
+                sa = a_of(src)
+                has, dv, dkk = s2.get("dhas", sa), s2.get("dval", sa), s2.get("dkey", sa)
+                kc = fresh("ck")             # canonical key (bound variable of the definition below)
+                probe = s2.fork()
+                probe.assume(z3.Select(has, kc), kn(kc) == kc, hashable(z3.Select(dkk, kc)),      # keys of a dict are hashable
+                             kn(z3.Select(dkk, kc)) == kc, z3.Not(is_absent(z3.Select(dv, kc))))
+                probe.env = dict(probe.env)
+                probe.env[kn_] = z3.Select(dkk, kc)
+                probe.env[vn_] = z3.Select(dv, kc)
+                cond = z3.BoolVal(True)
+                cur = probe
+                for test in g.ifs:
+                    rs = eng.ev(test, cur, fx)
+                    if len(rs) != 1 or rs[0].kind != "ok" or any(not rs[0].st.heap[c].eq(s2.heap[c]) for c in s2.heap):
+                        raise Unsupported("dict comprehension with an effectful / branching condition")
+                    cond = z3.And(cond, eng.truthy(rs[0].st, rs[0].val))
+                    cur = rs[0].st
+                s3 = s2.fork()
+                d = eng.alloc_dict(s3)
+                a = a_of(d)
+                h, v, dk, n = fresh("ch", ArrVB), fresh("cv", ArrVV), fresh("cdk", ArrVV), fresh("cn", I)
+                keep = z3.And(z3.Select(has, kc), cond)
+                s3.assume(z3.ForAll([kc], z3.And(z3.Select(h, kc) == keep,
+                                                 z3.Select(v, kc) == z3.If(keep, z3.Select(dv, kc), ABSENT),
+                                                 z3.Select(dk, kc) == z3.If(keep, z3.Select(dkk, kc), ABSENT))))
+                s3.assume(n >= 0, n <= s3.get("dsize", sa))
+                s3.assume(z3.ForAll([kc], z3.Implies(z3.Select(h, kc), n > 0), patterns=[z3.Select(h, kc)]))
+                s3.put("dhas", a, h)
+                s3.put("dval", a, v)
+                s3.put("dkey", a, dk)
+                s3.put("dsize", a, n)
+                out.append(Res("ok", s3, d))
+        return out
 
     # ------------------------------------------------------------------ calls of values
     def call_value(self, eng, st, f, pos, kw, fx):
@@ -1020,7 +1129,7 @@ class Models:
         rz = APP_RAISES[n](f, *args)
         ok.assume(z3.Not(rz))
         a = ok.new_addr()
-        ok.assume(z3.Implies(is_ref(res), a_of(res) <= a), z3.Not(is_absent(res)))
+        ok.assume(z3.Implies(is_ref(res), z3.And(a_of(res) >= 0, a_of(res) <= a)), z3.Not(is_absent(res)))
         ok.note("callback returns")
         if eng.feasible(ok):
             out.append(Res("ok", ok, res))
@@ -1170,6 +1279,28 @@ class Models:
                     else:
                         self.dict_put(eng, s2, a, pos[0], NONE)
                         out.append(Res("ok", s2, NONE))
+                return out
+            if name == "update" and len(pos) == 1 and is_val(pos[0]):
+                o = pos[0]
+                SET = CLS.cid("set")
+                out = []
+                for s2, ok in eng.split(st, z3.And(is_ref(o), z3.Or(s2c == SET for s2c in [st.get("cls_of", a_of(o))])), note="set.update operand is a set"):
+                    if not ok:
+                        raise Unsupported("set.update of a non-set")
+                    s2 = s2.fork()
+                    b = a_of(o)
+                    eng.check_write(s2, a, "set update")
+                    h, dk, n = fresh("suh", ArrVB), fresh("suk", ArrVV), fresh("sun", I)
+                    kq = z3.Const("k!su", Val)
+                    ha, hb = s2.get("dhas", a), s2.get("dhas", b)
+                    ka, kb = s2.get("dkey", a), s2.get("dkey", b)
+                    s2.assume(z3.ForAll([kq], z3.And(z3.Select(h, kq) == z3.Or(z3.Select(ha, kq), z3.Select(hb, kq)),
+                                                     z3.Select(dk, kq) == z3.If(z3.Select(ha, kq), z3.Select(ka, kq), z3.Select(kb, kq)))))
+                    s2.assume(n >= s2.get("dsize", a), n >= s2.get("dsize", b), n <= s2.get("dsize", a) + s2.get("dsize", b))
+                    s2.put("dhas", a, h)
+                    s2.put("dkey", a, dk)
+                    s2.put("dsize", a, n)
+                    out.append(Res("ok", s2, NONE))
                 return out
             if name in ("discard", "remove"):
                 out = []
@@ -1377,6 +1508,8 @@ class Models:
             r = h(eng, st, obj, name, dflt, fx)
             if r is not None:
                 return r
+        if isinstance(obj, PClass) and is_val(name):
+            obj = eng.to_val(st, obj)          # a sentinel / class atom
         if is_val(obj) and is_val(name) and eng.static_class(st, obj) is None:
             # foreign object, symbolic attribute name: instance dict, then its class
             sid = s_of(name)
@@ -1391,7 +1524,7 @@ class Models:
                 else:
                     out.append(eng.exc(s2, "AttributeError", note="no such attribute"))
             return out
-        raise Unsupported("getattr with a symbolic name")
+        raise Unsupported("getattr with a symbolic name on %r (static class %s)" % (obj, eng.static_class(st, obj) if is_val(obj) else "-"))
 
     def bi_setattr(self, eng, st, pos, kw, fx):
         obj, name, val = pos
